@@ -829,6 +829,9 @@ m("c16-creation-height-unguarded", "C16", "precompiles/staking/types.go",
 m("c08-selfdestruct-removes-vesting-account", "C08", "x/evm/keeper/statedb.go",
   "\tif _, isVesting := acct.(vestexported.VestingAccount); isVesting {\n\t\treturn errorsmod.Wrapf(types.ErrInvalidAccount, \"vesting account %s cannot be destructed\", addr)\n\t}\n", "\t_ = vestexported.VestingAccount(nil)\n",
   "spares-vesting-accounts", "SELFDESTRUCT deletes a vesting account and its lock-up")
+m("c16-commission-first-coin", "C16", "precompiles/distribution/events.go",
+  "\tb.Write(cmn.PackNum(reflect.ValueOf(coins.AmountOf(p.stakingKeeper.BondDenom(ctx)).BigInt())))", "\tb.Write(cmn.PackNum(reflect.ValueOf(coins[0].Amount.BigInt())))",
+  "coins-read-by-denomination", "the commission event indexes an answer that may be empty", count=2)
 for prop in ("C16", "C07"):
     m("c%s-gas-meter-without-precharge" % prop[1:], prop, "precompiles/common/precompile.go",
       "sdk.NewGasMeter(initialGas + contract.Gas)", "sdk.NewGasMeter(contract.Gas)",
